@@ -319,7 +319,7 @@ class Supercell(object):
         :param ind: integer index
         :param c: chemistry index
         """
-        if c < -2 or c > self.crys.Nchem:
+        if c < -1 or c >= self.Nchem:
             raise IndexError('Trying to occupy with a non-defined chemistry: {} out of range'.format(c))
         corig = self.occ[ind]
         if corig != c:
